@@ -419,6 +419,127 @@ def h_load_relative(vm, st, name, argv, ins):
     return (p + signed(v, 32)) & M64
 
 
+# ------------------------------------------------------------------ a tiny in-memory file system (C08, C09)
+# st.files: path -> list of cells; st.fds: fd -> [path, position].  Clock: concrete, increasing.
+
+def _cstr(vm, st, p):
+    p = vm.concretize(st, p)
+    out = bytearray()
+    while True:
+        c = st.mem.read_cells(p + len(out), 1)[0]
+        if type(c) is not int:
+            raise Inconclusive("symbolic path name")
+        if c == 0:
+            return out.decode('utf-8', 'replace')
+        out.append(c)
+
+
+def _errno(vm, st, val):
+    a = vm.sym('@__verif_errno') if '@__verif_errno' in vm.gaddr else None
+    if a is None:
+        base = vm.fresh_base(4, 16)
+        from .vm import Alloc, PAGE
+        al = Alloc(base, 4, 'global', 0, 'errno', 0)
+        vm.gpages[base >> PAGE] = al
+        vm.gaddr['@__verif_errno'] = base
+        a = base
+    if val is not None:
+        st.mem.write_cells(a, list(int(val).to_bytes(4, 'little')))
+    return a
+
+
+def h_errno_location(vm, st, name, argv, ins):
+    return _errno(vm, st, None)
+
+
+def h_open(vm, st, name, argv, ins):
+    path = _cstr(vm, st, argv[0])
+    flags = vm.concretize(st, argv[1]) & 0xFFFFFFFF
+    if flags & 0x40:                      # O_CREAT
+        if path not in st.files or flags & 0x200:
+            st.files = dict(st.files); st.files[path] = []
+    elif path not in st.files:
+        _errno(vm, st, 2)                 # ENOENT
+        return 0xFFFFFFFF
+    elif flags & 0x200 and flags & 3:
+        st.files = dict(st.files); st.files[path] = []
+    fd = 3 + len(st.fds)
+    st.fds = dict(st.fds); st.fds[fd] = [path, 0]
+    return fd
+
+
+def h_close(vm, st, name, argv, ins):
+    return 0
+
+
+def h_write(vm, st, name, argv, ins):
+    fd = vm.concretize(st, argv[0]) & 0xFFFFFFFF
+    n = vm.concretize(st, argv[2])
+    if fd in (1, 2):
+        return n
+    if fd not in st.fds:
+        _errno(vm, st, 9); return M64
+    path, pos = st.fds[fd]
+    cells = list(vm.load_bytes(st, argv[1], n)) if n else []
+    f = list(st.files[path])
+    f[pos:pos + n] = cells
+    st.files = dict(st.files); st.files[path] = f
+    st.fds = dict(st.fds); st.fds[fd] = [path, pos + n]
+    return n
+
+
+def h_read(vm, st, name, argv, ins):
+    fd = vm.concretize(st, argv[0]) & 0xFFFFFFFF
+    n = vm.concretize(st, argv[2])
+    if fd not in st.fds:
+        _errno(vm, st, 9); return M64
+    path, pos = st.fds[fd]
+    f = st.files[path]
+    k = max(0, min(n, len(f) - pos))
+    if k:
+        vm.store_bytes(st, argv[1], list(f[pos:pos + k]))
+    st.fds = dict(st.fds); st.fds[fd] = [path, pos + k]
+    return k
+
+
+def h_lseek(vm, st, name, argv, ins):
+    fd = vm.concretize(st, argv[0]) & 0xFFFFFFFF
+    off = signed(vm.concretize(st, argv[1]), 64)
+    wh = vm.concretize(st, argv[2]) & 0xFFFFFFFF
+    if fd not in st.fds:
+        _errno(vm, st, 9); return M64
+    path, pos = st.fds[fd]
+    base = {0: 0, 1: pos, 2: len(st.files[path])}[wh]
+    st.fds = dict(st.fds); st.fds[fd] = [path, base + off]
+    return (base + off) & M64
+
+
+def h_fstat(vm, st, name, argv, ins):
+    fd = vm.concretize(st, argv[0]) & 0xFFFFFFFF
+    if fd not in st.fds:
+        _errno(vm, st, 9); return 0xFFFFFFFF
+    path, pos = st.fds[fd]
+    buf = [0] * 144
+    buf[24:28] = list((0o100644).to_bytes(4, 'little'))           # st_mode: regular file
+    buf[48:56] = list(len(st.files[path]).to_bytes(8, 'little'))   # st_size
+    vm.store_bytes(st, argv[1], buf)
+    return 0
+
+
+def h_enosys(vm, st, name, argv, ins):
+    _errno(vm, st, 38)
+    return M64 if name in ('@syscall',) else 0xFFFFFFFF
+
+
+_clock = [1000]
+
+
+def h_clock_gettime(vm, st, name, argv, ins):
+    _clock[0] += 1
+    vm.store_bytes(st, argv[1], list((_clock[0]).to_bytes(8, 'little')) + list((0).to_bytes(8, 'little')))
+    return 0
+
+
 def install(vm):
     E = vm.externs
 
@@ -455,6 +576,16 @@ def install(vm):
     add(lambda n: n == '@bcmp', h_bcmp)
     add(lambda n: n == '@strlen', h_strlen)
     add(lambda n: n == '@getenv', lambda vm, st, name, argv, ins: 0)      # no environment variable is set
+    add(lambda n: n in ('@open64', '@open'), h_open)
+    add(lambda n: n == '@close', h_close)
+    add(lambda n: n == '@write', h_write)
+    add(lambda n: n == '@read', h_read)
+    add(lambda n: n in ('@lseek64', '@lseek'), h_lseek)
+    add(lambda n: n in ('@fstat64', '@fstat'), h_fstat)
+    add(lambda n: n in ('@statx', '@syscall'), h_enosys)
+    add(lambda n: n == '@dlsym', lambda vm, st, name, argv, ins: 0)
+    add(lambda n: n == '@__errno_location', h_errno_location)
+    add(lambda n: n == '@clock_gettime', h_clock_gettime)
     add(lambda n: n in ('@abort', '@exit', '@_exit') or 'std7process5abort' in n or '3std3sys.*abort_internal' in n, h_abort)
     add(lambda n: _panic_re.search(n) is not None, h_panic, True)
     add(lambda n: n.startswith('@llvm.load.relative'), h_load_relative)
